@@ -7,10 +7,11 @@ pub mod c12;
 pub mod c13;
 pub mod c14;
 pub mod c15;
+pub mod c16;
 
 use crate::kernel::{Check, RunCtx, Stats, Tier, prng};
 
-pub static ALL: &[&'static dyn Check] = &[&c01::C01, &c02::C02, &c03::C03, &c12::C12, &c13::C13, &c14::C14, &c15::C15];
+pub static ALL: &[&'static dyn Check] = &[&c01::C01, &c02::C02, &c03::C03, &c12::C12, &c13::C13, &c14::C14, &c15::C15, &c16::C16];
 
 /// Determinism self-test: every case is planned and executed twice in this process; plans,
 /// findings and the statistics (which include every fault that fired and every probe) must be
